@@ -172,6 +172,43 @@ example : marlinTemp.firstValue 'T' = some (421/2) ∧ grblStatus.firstValue 'S'
     ∧ grblProbe.firstValue 'Z' = some (-7/2) := by decide +kernel
 example : ((deliver {} [marlinTemp.render, marlinPos.render, grblProbe.render]).params.get 'x') = some (3/2) := by decide +kernel
 
+/-! ### Non-vacuity: error words that are not at the start of the line
+
+The dispatch looks for `error` / `alarm` / `!!` only at the START of the stripped line.  A Grbl status
+report in the Alarm state, a `[MSG:…]` line or a Marlin `echo:` line that merely contains such a word
+is a well-formed report (the word is noise for the pattern): the theorems above apply to it.  The same
+tokens behind an error prefix are an error line (`C18_error_keeps`). -/
+
+/-- Grbl status in the Alarm state: `<Alarm|MPos:1.000,2.000,-3.000|FS:0,0|error>` -/
+def grblAlarm : Report :=
+  { opener := some '<', sep := '|', closer := some '>',
+    toks := [.noise "Alarm".toList, .pos .mpos [dec false [1] [0, 0, 0], dec false [2] [0, 0, 0], dec true [3] [0, 0, 0]] none,
+             .fs (int [0]) (int [0]), .noise "error".toList] }
+
+/-- Grbl status in a state with a sub-state: `<Door:1|WPos:1.5,2.5,-3.5|FS:500,8000>` -/
+def grblDoor : Report :=
+  { opener := some '<', sep := '|', closer := some '>',
+    toks := [.other "Door".toList [int [1]], .pos .wpos [dec false [1] [5], dec false [2] [5], dec true [3] [5]] none,
+             .fs (int [5, 0, 0]) (int [8, 0, 0, 0])] }
+
+/-- `[MSG:Reset to continue after ALARM]` followed by nothing: a report without readings -/
+def grblMsg : Report :=
+  { opener := some '[', closer := some ']', toks := [.noise "MSG:Reset to continue after ALARM".toList] }
+
+/-- Marlin: `echo:Error checking disabled !! T:20.5` -/
+def marlinEcho : Report :=
+  { toks := [.noise "echo:Error checking disabled !!".toList, .letter 'T' (dec false [2, 0] [5])] }
+
+example : grblAlarm.wf = true ∧ grblDoor.wf = true ∧ grblMsg.wf = true ∧ marlinEcho.wf = true := by decide
+example : String.ofList grblAlarm.render = "<Alarm|MPos:1.000,2.000,-3.000|FS:0,0|error>" := by decide
+example : grblAlarm.firstValue 'Z' = some (-3) ∧ grblAlarm.firstValue 'S' = some 0 ∧ grblDoor.firstValue 'F' = some 500
+    ∧ grblMsg.mentions = [] ∧ marlinEcho.firstValue 'T' = some (41/2) := by decide +kernel
+example : ((deliver {} [grblStatus.render, grblAlarm.render]).params.get 'f') = some 0
+    ∧ (deliver {} [grblStatus.render, grblAlarm.render]).error = none := by decide +kernel
+/-- the same fields behind the word at the start of the line are an error line: nothing is read -/
+example : (onDeviceMessage {} "Alarm|MPos:1.000,2.000,-3.000|FS:0,0>".toList).params.get 'X' = none
+    ∧ (onDeviceMessage {} " ALARM:1 <Idle|MPos:1,2,3>\n".toList).error = some "ALARM:1 <Idle|MPos:1,2,3>".toList := by decide +kernel
+
 /-- Boundary of the families (documented, not a theorem about reports): the first-occurrence
     bookkeeping of the code is case-sensitive while the table is not, so a line that names the same
     letter in both cases (`x:1 X:2`, not produced by Marlin or Grbl) reads the *last* of them. -/
